@@ -47,6 +47,11 @@ class FakeSock:
     def sendall(self, b):
         self.out.append(bytes(b))
 
+    def send(self, b):
+        n = min(len(b), 700)       # like socket.send: may take only a part
+        self.out.append(bytes(b[:n]))
+        return n
+
     def shutdown(self, how):
         pass
 
